@@ -851,6 +851,16 @@ def call_type(interp, name, args, kwargs):
             tot = Aff(_lin(tot.coeffs, 1, a.coeffs, scale[kk]), tot.const + a.const * scale[kk], 'td')
         return tot
     if name == 'datetime.datetime':
+        if not kwargs and len(args) in (6, 7):
+            whole = _fields_of_one_datetime(ListV(list(args[:6]), 'tuple'), 6)
+            if whole is not None:
+                if len(args) == 7 and isinstance(args[6], Atom) and args[6].op == 'microsecond' and k(args[6].args[0]) == k(whole):
+                    return whole            # rebuilt from all its own fields
+                if len(args) == 6:
+                    if isinstance(whole, Aff) and whole.kind == 'dt' and len(whole.coeffs) == 1 and list(whole.coeffs.values())[0] == 1 \
+                            and whole.const.denominator == 1:
+                        return Aff({'floor:' + list(whole.coeffs)[0]: 1}, whole.const, 'dt')
+                    return Atom('whole-seconds', [whole], 'datetime')      # the same instant with the sub-second part dropped
         if all(a.tag in NUMERIC or a.tag is None for a in args):
             # constructor validates ranges
             interp.state.events.append(('datetime-ctor', list(args), list(interp.state.notes)))
@@ -865,6 +875,22 @@ def call_type(interp, name, args, kwargs):
     if name == 'datetime.time':
         return Atom('time', list(args) + list(kwargs.values()), 'time')
     raise Unmodelled('constructor %s' % name)
+
+
+def _fields_of_one_datetime(v, n):
+    """``v`` = (year(X), month(X), day(X), hour(X), minute(X), second(X), ...) for one date-time X: returns X, else None."""
+    if not isinstance(v, ListV) or v.has_splice() or len(v.items) < n:
+        return None
+    names = ('year', 'month', 'day', 'hour', 'minute', 'second')[:n]
+    x = None
+    for f_, it in zip(names, v.items):
+        if not (isinstance(it, Atom) and it.op == f_ and len(it.args) == 1):
+            return None
+        if x is None:
+            x = it.args[0]
+        elif k(x) != k(it.args[0]):
+            return None
+    return x
 
 
 def _drain(interp, v):
@@ -966,7 +992,10 @@ def call_builtin(interp, name, args, kwargs):
         return GenV([ListV(list(t), 'tuple') for t in zip(*lists)])
     if name == 'enumerate':
         items = iter_items(interp, args[0])
-        start = args[1].value if len(args) > 1 and isinstance(args[1], Const) else 0
+        sv = args[1] if len(args) > 1 else kwargs.get('start', Const(0))
+        if not (isinstance(sv, Const) and isinstance(sv.value, int)):
+            raise Unmodelled('enumerate(start=%r)' % (sv,))
+        start = sv.value
         out = []
         for i, it in enumerate(items):
             if isinstance(it, Splice):
@@ -1010,6 +1039,27 @@ def call_builtin(interp, name, args, kwargs):
             else:
                 groups.append((it_, [it_]))
         return GenV([ListV([kk, GenV(list(gg), None)], 'tuple') for kk, gg in groups], tail)
+    if name in ('itertools.product', 'itertools.permutations', 'itertools.combinations', 'itertools.combinations_with_replacement'):
+        import itertools as _it
+        pools = []
+        for a in args:
+            if name != 'itertools.product' and a is not args[0]:
+                break
+            items = iter_items(interp, a)
+            if any(isinstance(i, Splice) for i in items):
+                raise Unmodelled('%s over a run of unknown length' % name)
+            pools.append(items)
+        if name == 'itertools.product':
+            rep = kwargs.get('repeat', Const(1))
+            if not (isinstance(rep, Const) and isinstance(rep.value, int)):
+                raise Unmodelled('product(repeat=?)')
+            combos = _it.product(*pools, repeat=rep.value)
+        else:
+            r = args[1] if len(args) > 1 else kwargs.get('r', Const(len(pools[0])))
+            if not (isinstance(r, Const) and isinstance(r.value, int)):
+                raise Unmodelled('%s(r=?)' % name)
+            combos = getattr(_it, name.split('.')[1])(pools[0], r.value)
+        return GenV([ListV(list(c_), 'tuple') for c_ in combos], None)
     if name in ('itertools.chain',):
         out = []
         tail = None
@@ -1068,6 +1118,11 @@ def call_builtin(interp, name, args, kwargs):
             return args[0]
         interp.extern['hx:identity'] = lambda it, a, kw: a[0]
         return Builtin('hx:identity')
+    if name in ('functools.singledispatch', 'singledispatch') and len(args) == 1 and isinstance(args[0], Func):
+        from .absint import DispatchV
+        raw = Func(args[0].module, args[0].node, args[0].closure, args[0].name)
+        raw.attrs['<raw>'] = True
+        return DispatchV(raw)
     if name in ('functools.wraps', 'wraps', 'functools.update_wrapper'):
         # copies metadata only: the decorated function itself is what comes back
         if name == 'functools.update_wrapper':
@@ -1126,6 +1181,19 @@ def call_builtin(interp, name, args, kwargs):
         return Atom(name, [i if not isinstance(i, Splice) else Sym('list', i.name) for i in items] + list(args[1:]), 'float')
     if name.startswith('random.'):
         return Atom(name, args, 'float' if short == 'random' else 'int')
+    if name in ('calendar.timegm', 'time.mktime') and len(args) == 1 and _fields_of_one_datetime(args[0], 6) is not None:
+        # whole seconds since 1970 of the (naive, UTC) date-time: the floor of its epoch seconds
+        import math
+        b = _fields_of_one_datetime(args[0], 6)
+        if name == 'time.mktime':
+            interp.imprecise('time.mktime depends on the local time zone')
+        if isinstance(b, Aff) and b.kind == 'dt':
+            if not b.coeffs:
+                r_ = Const(math.floor(b.const))
+                return r_ if name == 'calendar.timegm' else Const(float(r_.value))
+            if len(b.coeffs) == 1 and list(b.coeffs.values())[0] == 1 and b.const.denominator == 1:
+                return Aff({'floor:' + list(b.coeffs)[0]: 1}, b.const, 'int')
+        return Atom('timegm', [b], 'int')
     if name in ('calendar.isleap', 'calendar.monthrange'):
         import calendar as _cal
         y = args[0]
@@ -1236,10 +1304,25 @@ def call_builtin(interp, name, args, kwargs):
 # methods on abstract values
 
 STR_TO_STR = set(['upper', 'lower', 'title', 'strip', 'lstrip', 'rstrip', 'replace', 'rjust', 'ljust', 'zfill', 'capitalize',
-                  'swapcase', 'casefold', 'format', 'center'])
+                  'swapcase', 'casefold', 'format', 'center', 'removesuffix', 'removeprefix', 'expandtabs', 'translate',
+                  'format_map'])
 STR_TO_BOOL = set(['startswith', 'endswith', 'isdigit', 'isalpha', 'isalnum', 'isspace', 'isupper', 'islower', 'isnumeric',
                    'isdecimal'])
 STR_TO_INT = set(['find', 'rfind', 'count'])
+
+
+def is_concrete(v, _depth=0):
+    """A fully known value (constants, named singletons, functions, classes, enum members / records and tuples of them):
+    two concrete values with different keys are different dictionary keys."""
+    if isinstance(v, (Const, Err, Func, TypeV, ClassV, Builtin)):
+        return True
+    if _depth > 4:
+        return False
+    if isinstance(v, ListV) and v.kind == 'tuple' and not v.has_splice():
+        return all(is_concrete(i, _depth + 1) for i in v.items)
+    if isinstance(v, Obj) and v.attrs and v.cls.module is not None:
+        return all(is_concrete(a, _depth + 1) for a in v.attrs.values())
+    return False
 
 
 def call_method(interp, base, attr, args, kwargs, text=''):
@@ -1258,6 +1341,8 @@ def call_method(interp, base, attr, args, kwargs, text=''):
             for p in base.pairs:
                 kk = p[0]
                 if isinstance(arg, Const) and isinstance(kk, Const):
+                    continue
+                if is_concrete(arg) and is_concrete(kk):
                     continue
                 if isinstance(arg, (Err, Func, TypeV, ClassV, Builtin)) and isinstance(kk, (Err, Func, TypeV, ClassV, Builtin)):
                     continue        # distinct named objects
@@ -1353,6 +1438,8 @@ def call_method(interp, base, attr, args, kwargs, text=''):
                     continue
                 if it.tag is not None and it.tag != 'str':
                     raise Raised(Exc('TypeError', 'sequence item: expected str instance, %s found' % it.tag))
+            if isinstance(base, Const) and all(isinstance(i, Const) and isinstance(i.value, str) for i in items):
+                return Const(base.value.join(i.value for i in items))
             return Atom('join', [base] + [i if not isinstance(i, Splice) else Sym('list', i.name) for i in items], 'str')
         if attr in STR_TO_STR:
             for a in args:
@@ -1367,6 +1454,8 @@ def call_method(interp, base, attr, args, kwargs, text=''):
             return Sym('list', '%s(%r)' % (attr, base))
         if attr == 'encode':
             return Atom('encode', [base], 'bytes')
+        if hasattr(str, attr):
+            raise Unmodelled('str method %s' % attr)
         raise Raised(Exc('AttributeError', "'str' object has no attribute '%s'" % attr))
     if tag in ('datetime', 'date'):
         if attr in ('weekday', 'isoweekday', 'toordinal'):
@@ -1377,6 +1466,13 @@ def call_method(interp, base, attr, args, kwargs, text=''):
             return Atom(attr, [base] + list(args), 'str')
         if attr == 'timestamp':
             return Atom(attr, [base], 'float')
+        if attr in ('timetuple', 'utctimetuple') and not args and tag == 'datetime':
+            # the fields down to whole seconds (the sub-second part is not in the tuple)
+            return ListV([Atom(f_, [base], 'int') for f_ in ('year', 'month', 'day', 'hour', 'minute', 'second', 'weekday', 'yday')]
+                         + [Const(-1)], 'tuple')
+        import datetime as _dt
+        if hasattr(_dt.datetime if tag == 'datetime' else _dt.date, attr):
+            raise Unmodelled('%s method %s' % (tag, attr))
         raise Raised(Exc('AttributeError', attr))
     if isinstance(base, Aff) and base.kind == 'td' and attr == 'total_seconds':
         return Aff(dict(base.coeffs), base.const, 'num')
@@ -1387,6 +1483,9 @@ def call_method(interp, base, attr, args, kwargs, text=''):
             return Atom(attr, [base], 'bool')
         if attr in ('bit_length', 'conjugate'):
             return Atom(attr, [base], tag)
+        if any(hasattr(t_, attr) for t_ in ((complex,) if tag == 'complex' else (int, float) if tag in ('num', 'bool') else
+                                            (int,) if tag == 'int' else (float,) if tag == 'float' else (int, float, complex))):
+            raise Unmodelled('%s method %s' % (tag, attr))
         raise Raised(Exc('AttributeError', "'%s' object has no attribute '%s'" % (tag, attr)))
     if tag in ('none', 'err', 'bool'):
         if tag == 'err' and attr == 'with_traceback':
